@@ -15,6 +15,7 @@ Oracle: spec/Connection.tla evaluated by TLC.
 """
 from __future__ import annotations
 
+import os
 import json
 import multiprocessing as mp
 import random
@@ -65,7 +66,7 @@ def _cfg(name, *, spec="Spec", corrmax=3, maxreq=3, maxframes=3, faults=1, bodyl
     txt = MC_TEMPLATE.format(spec=spec, corrmax=corrmax, maxreq=maxreq, maxframes=maxframes, faults=faults,
                              bodylen=bodylen, vias=vias, inits=inits, fine=fine, kinds=kinds, maxdone=maxdone,
                              props=props)
-    p = tlc.SPEC / f"_gen_c12_{name}.cfg"
+    p = tlc.SPEC / f"_gen_c12_{name}_{os.getpid()}.cfg"
     p.write_text(txt)
     return p.name
 
@@ -102,7 +103,7 @@ def run_mc(ctx):
         with ThreadPoolExecutor(max_workers=3) as ex:
             results = list(ex.map(one, cfgs))
     finally:
-        for p in tlc.SPEC.glob("_gen_c12_*.cfg"):
+        for p in tlc.SPEC.glob(f"_gen_c12_*_{os.getpid()}.cfg"):
             p.unlink()
     return results
 
